@@ -45,6 +45,7 @@ Section EncForgets.
   Lemma seekforgets_enc : SeekForgets (EncReader CHUNK TAG ks tagc S).
   Proof.
     intros s1 s2 p. cbn [EncReader sk]. unfold eseek. unfold eseek_start.
+    destruct (_ <? p / CHUNK); cbn [snd fst is_ok]; [split; [reflexivity | discriminate]|].
     destruct (HS (e_in s1) (e_in s2) (notag2tag CHUNK TAG p / CTS CHUNK TAG * CTS CHUNK TAG)) as [Hr Hst].
     destruct (sk S (e_in s1) _) as [i1 r1] eqn:E1.
     destruct (sk S (e_in s2) _) as [i2 r2] eqn:E2.
